@@ -122,6 +122,27 @@ pub fn xlattice_point(kind: Kind, ix: &[usize], act: Act) -> Option<(Dims, L)> {
     Some((Dims::Chw(c, h, w), l))
 }
 
+/// "heavy" layers: 3 channels, 8 filters, a 24x30 plane (64k multiply-adds for the default 2x2 kernel - beyond any
+/// size threshold a blocked / parallel fast path would plausibly use), walked with the deviation-bounded enumerator
+/// over the 8 geometry dimensions [kh,kw,sh,sw,ph,pw,dh,dw] of the large-value lattice
+pub fn heavy_domains(kind: Kind) -> Vec<usize> {
+    xlattice_domains(kind)[..8].to_vec()
+}
+pub fn heavy_point(kind: Kind, ix: &[usize], act: Act) -> Option<(Dims, L)> {
+    let k = (K_X[ix[0]], K_X[ix[1]]);
+    let p = (PAD_X[ix[4]], PAD_X[ix[5]]);
+    let d = (DIL_X[ix[6]], DIL_X[ix[7]]);
+    let (c, f, h, w) = (3, 8, 24, 30);
+    let l = match kind {
+        Kind::Conv => L::Conv { f, k, s: (S_X[ix[2]], S_X[ix[3]]), p, d, act, drop: None },
+        Kind::Deconv => L::Deconv { f, k, s: (S_X[ix[2]], S_X[ix[3]]), p, act, drop: None },
+        Kind::Pool => L::Pool { k, s: (S_X[ix[2]], S_X[ix[3]]) },
+    };
+    let net = Net::new(Dims::Chw(c, h, w), vec![l.clone()]);
+    ref_shapes(&net).ok()?;
+    Some((Dims::Chw(c, h, w), l))
+}
+
 /// lattice point -> (input dims, layer); None when the point is not a valid configuration
 pub fn lattice_point(kind: Kind, ix: &[usize], act: Act) -> Option<(Dims, L)> {
     let k = (K[ix[0]], K[ix[1]]);
